@@ -27,21 +27,30 @@ def Flt.int? : Flt → Option Int
 /-- does the decimal denote the given integer? (`UnitCell != UnitCell::default()`) -/
 def Flt.isInt (f : Flt) (n : Int) : Bool := f.int? == some n
 
-/-- `format!("{n}")` of the `f64` a numeric token was lexed to.  Exact (second component) for integers below
-2^53 and the non-finite values; other values print through the shortest-round-trip algorithm on a value that
-carries the rounding noise of `parse_numeric`, which the model does not predict: then the token itself stands
-in for the text and the result is marked inexact. -/
+/-- decimal digits of `m · 10^e` (`m > 0`) the way `Display for f64` prints them: no exponent, no trailing
+zeros, `0.` in front of a pure fraction -/
+def decimalText (m : Nat) (e : Int) : List Char :=
+  if e ≥ 0 then (toString m).toList ++ List.replicate e.toNat '0'
+  else
+    let k := (-e).toNat
+    let d := (toString m).toList
+    let d := List.replicate (k + 1 - d.length) '0' ++ d          -- at least one digit before the point
+    let ip := d.take (d.length - k)
+    let fp := ((d.drop (d.length - k)).reverse.dropWhile (· == '0')).reverse
+    if fp.isEmpty then ip else ip ++ '.' :: fp
+
+/-- `format!("{n}")` of the `f64` a numeric token was lexed to.  The lexer hands the literal to the standard
+library, so the value is the correctly rounded double; for a decimal of at most 15 significant digits the
+shortest-round-trip printer gives back exactly that decimal (second component true).  Longer mantissas are
+not predicted: the token stands in and the result is marked inexact. -/
 def numText (f : Flt) (tok : List Char) : List Char × Bool :=
   match f with
   | .inf neg => ((if neg then "-inf" else "inf").toList, true)
   | .nan => ("NaN".toList, true)
-  | .fin _ _ =>
-    match f.int? with
-    | some n =>
-      if n.natAbs < 2 ^ 53 then
-        ((if n = 0 then (if tok.head? == some '-' then "-0" else "0") else toString n).toList, true)
-      else (tok, false)
-    | none => (tok, false)
+  | .fin m e =>
+    let neg := tok.head? == some '-'
+    let body := if m = 0 then ['0'] else decimalText m.natAbs e
+    ((if neg then '-' :: body else body), true)
 
 /-- the line break in front of the closing `;` of a text field is not part of the value -/
 def stripEol (t : List Char) : List Char :=
@@ -262,7 +271,7 @@ def atomRow (o : ReadOpts) (s : AState) (vals : List (Option CifValue)) : AState
       | some m =>
         match m.mapM (·.micro?) with
         | some ints => ({ atom with atf := some ints }, true)
-        | none => (atom, false)
+        | none => ({ atom with atf := some (List.replicate 9 0) }, false)   -- presence matters to `validate`
     let s := { s with exact := s.exact && ex && exA }
     let s := if s.ids.contains atom.id then
         { s with dupIds := if s.dupIds.contains atom.id then s.dupIds else s.dupIds ++ [atom.id] }
@@ -456,7 +465,8 @@ def cifDiag (d : CDiag) : PDiag := ⟨d.1, d.2, []⟩
 
 /-- everything up to the gate -/
 def readCifCore (o : ReadOpts) (b : DataBlock) : PdbFile × List PDiag :=
-  let s0 : CState := { info := { identifier := if o.onlyAtomicCoords then none else some (String.ofList b.name) } }
+  let s0 : CState := { info := { identifier :=
+    if o.onlyAtomicCoords || b.name == ['?'] then none else some (String.ofList b.name) } }
   let s := b.items.foldl (stepCifItem o) s0
   let dflt : Bool := match s.cell with
     | [a, b, c, al, be, ga] => a.isInt 0 && b.isInt 0 && c.isInt 0 && al.isInt 90 && be.isInt 90 && ga.isInt 90
